@@ -35,6 +35,17 @@ Definition pgain : parser gainrep :=
 Definition earrQ (a : arr QcS) : list Z := nr a :: nc a :: flat_map eQ (tabulate a).
 Definition earrZ (a : arr ZS) : list Z := nr a :: nc a :: tabulate a.
 
+Definition bayer_args := (imgrep QcS * Z * qerep QcS * qerep QcS * qerep QcS * list Z * Z * bool)%type.
+Definition pbayer : parser bayer_args :=
+  i <- pimg ;; nw <- pZ ;; qr <- pqe ;; qg <- pqe ;; qb <- pqe ;; pat <- plist pZ ;; os <- pZ ;;
+  fl <- pbool ;; pret (i, nw, qr, qg, qb, pat, os, fl).
+Definition run_bayer (a : bayer_args) : list Z :=
+  let '(i, nw, qr, qg, qb, pat, os, fl) := a in
+  if (os <? 1) || (Z.of_nat (length pat) <? 1) then emalformed else
+  if fl : bool then eresult earrQ (collect_charge_bayer i nw qr qg qb pat os)
+  else eresult (fun '(r, g, b) => earrQ r ++ earrQ g ++ earrQ b)
+               (collect_charge_bayer_channels i nw qr qg qb pat os).
+
 Definition run_c16 (inp : list Z) : list Z :=
   match inp with
   | 1 :: rest =>   (* collect_charge(img, wave, qe) *)
@@ -42,13 +53,13 @@ Definition run_c16 (inp : list Z) : list Z :=
     | Some (i, nw, q) => eresult earrQ (collect_charge i nw q)
     | None => emalformed end
   | 2 :: rest =>   (* collect_charge_bayer(img, wave, qr, qg, qb, pattern, oversample, flatten) *)
-    match pall (i <- pimg ;; nw <- pZ ;; qr <- pqe ;; qg <- pqe ;; qb <- pqe ;; pat <- plist pZ ;; os <- pZ ;;
-                fl <- pbool ;; pret (i, nw, qr, qg, qb, pat, os, fl)) rest with
-    | Some (i, nw, qr, qg, qb, pat, os, fl) =>
-        if (os <? 1) || (Z.of_nat (length pat) <? 1) then emalformed else
-        if fl then eresult earrQ (collect_charge_bayer i nw qr qg qb pat os)
-        else eresult (fun '(r, g, b) => earrQ r ++ earrQ g ++ earrQ b)
-                     (collect_charge_bayer_channels i nw qr qg qb pat os)
+    match pall pbayer rest with
+    | Some a => run_bayer a
+    | None => emalformed end
+  | 5 :: rest =>   (* a sequence of collect_charge_bayer calls in one process: the model is a pure function,
+                      every call is answered from its own arguments; each answer is prefixed by its length *)
+    match pall (plist pbayer) rest with
+    | Some l => 0 :: flat_map (fun a => let o := run_bayer a in Z.of_nat (length o) :: o) l
     | None => emalformed end
   | 3 :: rest =>   (* adc(img, gain, saturation_capacity, warn_saturate) *)
     match pall (i <- parrQ ;; g <- pgain ;; s <- popt pQ ;; w <- pbool ;; pret (i, g, s, w)) rest with
